@@ -199,6 +199,12 @@ func OpenAPIAlertsToAlerts(ctx context.Context, apiAlerts open_api_models.Postab
 
 	alerts := make([]*alert.Alert, 0, len(apiAlerts))
 	for _, apiAlert := range apiAlerts {
+		if apiAlert == nil {
+			// A null entry of the batch: keep its place with an alert that
+			// fails validation, so that it is reported and the rest is stored.
+			alerts = append(alerts, &alert.Alert{})
+			continue
+		}
 		alerts = append(alerts, &alert.Alert{
 			Alert: prometheus_model.Alert{
 				Labels:       APILabelSetToModelLabelSet(apiAlert.Labels),
